@@ -1,7 +1,7 @@
 // C27 harness: histories of cooperative-sticky rebalance rounds through the real balancer.
 //
-//	reset                -> ok
-//	round1 M T           -> pre # post    (sticky plan before / after AdjustCooperative, one engine run)
+//	reset M T            -> pre # post    (a new history: first round on the given group; sticky plan before /
+//	                                       after AdjustCooperative, one engine run)
 //	next                 -> pre # post    (every member owns exactly its last adjusted plan, rejoins with real
 //	                                       stickyBalancer.JoinGroupMetadata at the next generation)
 //	change C             -> pre # post    (as next after drop:id | subs:id:t+t | join:id:t+t changes)
@@ -40,23 +40,50 @@ func clean(ms []bal.Mem) []bal.Mem { // unique ids, unique subscriptions (C25 co
 	return out
 }
 
+var caseNo int
+
+// unbalance makes the sticky plan move owned partitions: some members lose their ownership record (they
+// are new to the group), so the others hold more than their share.
+func unbalance(r *hx.Rng, ms []bal.Mem) {
+	if r == nil || len(ms) < 2 || !r.Chance(75) {
+		return
+	}
+	keep := r.Intn(len(ms))
+	for i := range ms {
+		if i != keep && r.Chance(50) {
+			ms[i].Owned = nil
+			if r.Bool() {
+				ms[i].Gen = -1
+			}
+		}
+	}
+}
+
 func history(r *hx.Rng, ms []bal.Mem, ts []bal.Topic, long bool) {
 	ms = clean(ms)
-	hx.Emit("reset")
-	hx.Emit("round1 %s %s", bal.EncMembers(ms), bal.EncTopics(ts))
-	hx.Emit("next")
+	unbalance(r, ms)
+	caseNo++
+	step := 0
+	next := func() {
+		step++
+		hx.Emit("next %d.%d", caseNo, step)
+	}
+	hx.Emit("reset %s %s", bal.EncMembers(ms), bal.EncTopics(ts))
+	next()
 	if !long {
 		return
 	}
-	hx.Emit("next")
 	if r == nil || len(ts) == 0 {
 		return
+	}
+	if r.Chance(25) {
+		next() // a settled group stays settled
 	}
 	ids := make([]string, len(ms))
 	for i, m := range ms {
 		ids[i] = m.ID
 	}
-	for c := 0; c < 1+r.Intn(2); c++ {
+	for c := 0; c < r.Intn(3); c++ {
 		var ch []string
 		for k := 0; k < 1+r.Intn(2); k++ {
 			subs := func() string {
@@ -84,9 +111,9 @@ func history(r *hx.Rng, ms []bal.Mem, ts []bal.Topic, long bool) {
 				ids = append(ids, id)
 			}
 		}
-		hx.Emit("change %s", strings.Join(ch, ";"))
-		hx.Emit("next")
-		hx.Emit("next")
+		step++
+		hx.Emit("change %s %d.%d", strings.Join(ch, ";"), caseNo, step)
+		next()
 	}
 }
 
@@ -125,6 +152,9 @@ func gen(a hx.Args) {
 			sh = bal.Shape{MaxMembers: 14, MaxTopics: 8, MaxParts: 16}
 		}
 		ms, ts := bal.Random(r, sh)
+		for len(ms) < 2 && !r.Chance(10) { // single-member groups have nothing to hand over: keep only a few
+			ms, ts = bal.Random(r, sh)
+		}
 		history(r, ms, ts, true)
 	}
 	for i := 0; i < a.N(5, 50); i++ {
@@ -206,9 +236,6 @@ func run() {
 		switch t[0] {
 		case "reset":
 			s = state{}
-			rounds = 0
-			return "ok"
-		case "round1":
 			s.ms, s.ts = bal.DecMembers(t[1]), bal.DecTopics(t[2])
 			join = bal.JoinMembers(s.ms, "coop")
 			rounds = 1
